@@ -1,7 +1,7 @@
 """C02 — every message of a text log is printed exactly once, byte for byte."""
 from vlib import core, text_oracles
 
-MODS = ['S4V.Props.SyslSpec', 'S4V.Props.LinesSpec']
+MODS = ['S4V.Props.SyslSpec', 'S4V.Props.LinesSpec', 'S4V.Props.CacheSpec']
 LEVEL_NOTE = ("Proved for every parser P, every byte string and every block size: lines tile the file (lines_partition, findLine_spec), messages "
               "(a timestamped line + following lines) are contiguous, start at the first timestamped line and end at the last byte (messages_partition), "
               "find_sysline returns the message containing the offset (findSysline_spec) and the streaming loop emits every message exactly once in file order "
